@@ -21,6 +21,7 @@ type World struct {
 	plumb      map[*ssa.Function]bool
 	plumbSum   map[*ssa.Function]*Expr
 	dynTargets map[ssa.CallInstruction][]*ssa.Function
+	addrTaken  map[string][]*ssa.Function
 	hooked     bool
 	initFields map[[2]any]*Expr
 	outCache   map[[2]any]*outSum
@@ -340,9 +341,85 @@ func (w *World) funcTargets(v ssa.Value, depth int) (out []*ssa.Function, known 
 			out = append(out, ts...)
 			known = known && k
 		}
-		return out, known && n > 0
+		if n > 0 {
+			return out, known
+		}
+		// no in-scope call site hands it in (an SDK continuation such as the ante `next`): nothing in scope to add
+		return nil, true
+	case *ssa.UnOp:
+		// a package-level function variable of another module (sdkerrors.Wrap = errorsmod.Wrap ...): out of scope
+		if g, ok := x.X.(*ssa.Global); ok && g.Pkg != nil && !InScope(g.Pkg.Pkg) {
+			return nil, true
+		}
 	}
-	return nil, false
+	// a function value read from a field, a slice or map element, a channel, another call's result ...: approximated by
+	// every in-scope function of the same signature whose address is taken somewhere (the classic address-taken
+	// approximation: sound for "may this call reach X", too coarse to expand on the flat view)
+	return w.addressTaken(v.Type()), true
+}
+
+// addressTaken: in-scope functions (closures, functions and methods used as values) with signature type t.
+func (w *World) addressTaken(t types.Type) []*ssa.Function {
+	if w.addrTaken == nil {
+		w.addrTaken = map[string][]*ssa.Function{}
+		seen := map[*ssa.Function]bool{}
+		note := func(fv ssa.Value) {
+			var f *ssa.Function
+			switch x := fv.(type) {
+			case *ssa.Function:
+				f = x
+			case *ssa.MakeClosure:
+				f, _ = x.Fn.(*ssa.Function)
+			}
+			if f == nil {
+				return
+			}
+			sig := fv.Type().Underlying().String()
+			u := w.unwrap(f)
+			if u == nil || !w.inSet[u] || len(u.Blocks) == 0 {
+				// a wrapper around an interface method: its in-scope implementers
+				for _, b := range f.Blocks {
+					for _, in := range b.Instrs {
+						if call, ok := in.(ssa.CallInstruction); ok && call.Common().IsInvoke() {
+							for _, t := range w.CalleesOf(call) {
+								if !seen[t] {
+									w.addrTaken[sig] = append(w.addrTaken[sig], t)
+								}
+							}
+						}
+					}
+				}
+				return
+			}
+			if !seen[u] {
+				seen[u] = true
+				w.addrTaken[sig] = append(w.addrTaken[sig], u)
+			}
+		}
+		for _, f := range w.Funcs {
+			for _, b := range f.Blocks {
+				for _, in := range b.Instrs {
+					if mc, ok := in.(*ssa.MakeClosure); ok {
+						note(mc)
+						continue
+					}
+					var ops [16]*ssa.Value
+					for _, op := range in.Operands(ops[:0]) {
+						if op == nil || *op == nil {
+							continue
+						}
+						if fv, ok := (*op).(*ssa.Function); ok {
+							if call, isCall := in.(ssa.CallInstruction); isCall && call.Common().Value == ssa.Value(fv) {
+								continue
+							}
+							note(fv)
+						}
+					}
+				}
+			}
+		}
+	}
+	return w.addrTaken[t.Underlying().String()]
 }
 
 // resolveDynamicCalls adds call-graph edges for calls through function-typed parameters (to a fixpoint: a callback
@@ -408,6 +485,36 @@ func (w *World) Reachable(roots []*ssa.Function) map[*ssa.Function]*Edge {
 		q = q[1:]
 		for i := range w.callees[f] {
 			e := w.callees[f][i]
+			if _, ok := seen[e.To]; !ok {
+				seen[e.To] = &e
+				q = append(q, e.To)
+			}
+		}
+	}
+	return seen
+}
+
+// ReachableNoDynamic is Reachable without the edges added for calls through function values. Those edges are
+// context-insensitive (every function ever handed to a shared helper): right for "can X be reached at all", wrong for
+// "what does this particular caller do" (the creator of a closure or the function naming a callback already has a
+// direct edge to it).
+func (w *World) ReachableNoDynamic(roots []*ssa.Function) map[*ssa.Function]*Edge {
+	seen := map[*ssa.Function]*Edge{}
+	var q []*ssa.Function
+	for _, r := range roots {
+		if _, ok := seen[r]; !ok {
+			seen[r] = nil
+			q = append(q, r)
+		}
+	}
+	for len(q) > 0 {
+		f := q[0]
+		q = q[1:]
+		for i := range w.callees[f] {
+			e := w.callees[f][i]
+			if e.Kind == "dynamic" {
+				continue
+			}
 			if _, ok := seen[e.To]; !ok {
 				seen[e.To] = &e
 				q = append(q, e.To)
@@ -581,4 +688,32 @@ func moduleOfPath(path string) string {
 		}
 	}
 	return ""
+}
+
+// UnresolvedDynamicCalls lists the calls through function values, in the given functions, whose targets cannot all
+// be traced to definitions (funcTargets known=false).
+func (w *World) UnresolvedDynamicCalls(fs []*ssa.Function) []ssa.CallInstruction {
+	var out []ssa.CallInstruction
+	for _, f := range fs {
+		for _, b := range f.Blocks {
+			for _, in := range b.Instrs {
+				call, ok := in.(ssa.CallInstruction)
+				if !ok {
+					continue
+				}
+				cc := call.Common()
+				if cc.IsInvoke() || cc.StaticCallee() != nil {
+					continue
+				}
+				switch cc.Value.(type) {
+				case *ssa.Builtin, *ssa.MakeClosure:
+					continue
+				}
+				if _, known := w.funcTargets(cc.Value, 0); !known {
+					out = append(out, call)
+				}
+			}
+		}
+	}
+	return out
 }
